@@ -193,6 +193,7 @@ fn extra_templates() -> Vec<(&'static str, T)> {
         ("IF I=1 THEN FOR J=1 TO 2", T::S(Stmt::If(bin(Eq, var("I"), num(1.0)), br(Stmt::For("J".into(), num(1.0), num(2.0), None)), None))),
         ("READ A(I)", T::S(Stmt::Read(vec![lvi("A", vec![var("I")])]))),
         ("READ B$(2)", T::S(Stmt::Read(vec![lvi("B$", vec![num(2.0)])]))),
+        ("REM c", T::S(Stmt::Rem(" c".into()))),
         // ---- INPUT family ----
         ("INPUT X", T::S(Stmt::Input(lv("X")))),
         ("INPUT Y$", T::S(Stmt::Input(lv("Y$")))),
@@ -249,6 +250,24 @@ pub fn array_menu() -> Vec<(&'static str, T)> {
 /// IF / ELSE lines combined with subroutines and loops.
 pub fn branch_menu() -> Vec<(&'static str, T)> {
     pick(&["IF X THEN PRINT 1", "IF X THEN PRINT 1 ELSE PRINT 2", "IF X=0 THEN GOSUB sub ELSE PRINT \"NO\"", "IF X THEN X=5", "IF X THEN last", "IF X THEN GOSUB sub", "X=X+1", "PRINT X", "GOTO first", "RETURN", "FOR I=1 TO 2", "NEXT I", "IF X THEN GOSUB sub ELSE PRINT \"NO\"", "IF X=0 THEN PRINT 1/0"])
+}
+
+/// Statements that execute nothing (REM, DATA) between ones that do: what one call steps over.
+pub fn quiet_menu() -> Vec<(&'static str, T)> {
+    pick(&["REM c", "DATA 2", "PRINT X", "X=X+1", "GOTO next-but-one", "IF X THEN last", "READ A", "GOSUB sub", "END"])
+}
+
+/// A REM swallows the rest of its line: a layout that joins a statement after one does not say
+/// what the statement list says.
+pub fn layout_is_faithful(seq: &[T], joins: u32) -> bool {
+    for (i, t) in seq.iter().enumerate() {
+        if let T::S(Stmt::Rem(_)) = t {
+            if i + 1 < seq.len() && (joins >> i) & 1 == 1 {
+                return false;
+            }
+        }
+    }
+    true
 }
 
 /// Lays a statement sequence out on lines. `joins` bit i set = statement i+1 shares the line
